@@ -420,6 +420,9 @@ class Scheduler(Subject):
 
             self.fire_event(awaited_event)
         else:
+            # the loop is left: it has to count from 0 again when it is reached the next time
+            del self.loop_counters[task_context.uuid][loop]
+
             awaited_event = Event(event_type=SET_PLACE, data={"place_uuid": else_uuid})
             self.awaited_events.append(awaited_event)
 
